@@ -401,6 +401,16 @@ func solve(dir string, id int, e *Enc, o *Obl, timeoutS int, seed int, crossChec
 				goals = append(goals, goal{sg.Path, T{c, SBool}, sg.Extra})
 			}
 		}
+	} else if len(o.Splits) > 1 {
+		var cases []T
+		for _, lits := range o.Splits {
+			cs := And(lits...)
+			cases = append(cases, cs)
+			for _, c := range splitConj(o.Cond.S) {
+				goals = append(goals, goal{And(o.Path, cs), T{c, SBool}, o.Extra})
+			}
+		}
+		goals = append(goals, goal{o.Path, Or(cases...), o.Extra})
 	} else {
 		for _, c := range splitConj(o.Cond.S) {
 			goals = append(goals, goal{o.Path, T{c, SBool}, o.Extra})
